@@ -660,6 +660,95 @@ fn heavy_use_suite(ctx: &Ctx, attempts: usize) -> SuiteReport {
     })
 }
 
+/// Two-picture histories in standard mode whose predicted picture is in Unrestricted Motion Vector
+/// mode with a limited range (PLUSPTYPE, UUI = "1"): the vector range then depends on the picture
+/// size class (Tables D.1 / D.2: widths up to 352, 704, 1408, beyond). One history per class.
+fn umv_class_histories() -> Vec<(u8, Vec<Step>)> {
+    use crate::bits::BitWriter;
+    use crate::hdr::*;
+    use crate::syntax::*;
+    let mut out = Vec::new();
+    for (k, w) in [64usize, 400, 800, 1500].iter().enumerate() {
+        let size = Size::StdCustom(*w as u16, 16);
+        let mut ipic = super::c13::cheap_intra(Mode::Standard, 0, size, 6, 3 + k);
+        ipic.hdr.plus = PlusForm::Full;
+        let mut p = base_plus();
+        p.opp = Opp::from_mode_bits(6, false, 1 << 9);
+        p.cpfmt = Cpfmt { par: 2, pwi: (*w / 4 - 1) as u16, marker: true, phi: 4, epar: (1, 1) };
+        p.uui = Uui::Limited;
+        p.ptype_code = 1;
+        let mut h = base_header(Kind::Plus(p));
+        h.tr = 40 + k as u8;
+        h.quant = 7;
+        let mut bw = BitWriter::new();
+        h.write(false, &Inherited::default(), &mut bw);
+        let mbs = (*w + 15) / 16;
+        for i in 0..mbs {
+            bw.put_bit(false); // COD
+            bw.put_code("1"); // MCBPC: INTER, no chroma
+            bw.put_code("11"); // CBPY (inter sense): no luma
+            // differentials that carry the vectors beyond +-16 samples in both directions
+            let v = [70i32, -66, 35, -90, 120, -31, 64, -64][(i + k) % 8];
+            crate::hostile::put_umv(&mut bw, v);
+            crate::hostile::put_umv(&mut bw, [3i32, -2, 0, 5][(i + k) % 4]);
+        }
+        out.push((0u8, vec![Step::Decode(encode_pic(&ipic)), Step::Decode(bw.to_bytes())]));
+    }
+    out
+}
+
+/// (9) concurrent hammering: every thread decodes its *own* history over and over while the other
+/// threads decode theirs (histories of every quantizer and mode, and UMV pictures of every size
+/// class); each repetition must give the transcript the history gives alone. Anything process-wide
+/// that one decode call writes and reads back later in the same call is overwritten by the other
+/// threads' pictures here within microseconds.
+fn hammer_suite(ctx: &Ctx, iterations: usize) -> SuiteReport {
+    let threads = ctx.threads.clamp(2, 8);
+    simple_suite("different_streams_hammered_concurrently", false, move |acc| {
+        let mut hists = umv_class_histories();
+        hists.extend(first_use_histories().into_iter().step_by(3));
+        let alone: Vec<u64> = hists.iter().map(|(o, s)| transcript_digest(&Instance::new(*o, s).run_all())).collect();
+        let hists = std::sync::Arc::new(hists);
+        let alone = std::sync::Arc::new(alone);
+        let rounds = (hists.len() + threads - 1) / threads;
+        for round in 0..rounds.max(1) * 2 {
+            let stop = std::sync::Arc::new(std::sync::atomic::AtomicBool::new(false));
+            let handles: Vec<_> = (0..threads)
+                .map(|t| {
+                    let (hists, alone, stop) = (hists.clone(), alone.clone(), stop.clone());
+                    // second half of the rounds: another pairing of histories and threads
+                    let idx = if round < rounds { (round * threads + t) % hists.len() } else { (t * rounds + round) % hists.len() };
+                    std::thread::spawn(move || {
+                        let (o, s) = &hists[idx];
+                        for it in 0..iterations {
+                            if stop.load(std::sync::atomic::Ordering::Relaxed) {
+                                break;
+                            }
+                            let d = transcript_digest(&Instance::new(*o, s).run_all());
+                            if d != alone[idx] {
+                                stop.store(true, std::sync::atomic::Ordering::Relaxed);
+                                return Some((idx, it));
+                            }
+                        }
+                        None
+                    })
+                })
+                .collect();
+            for h in handles {
+                if let Ok(Some((idx, it))) = h.join() {
+                    acc.fail(
+                        json!({"kind":"params","hammer":iterations}),
+                        format!("history {} ({}), decoded over and over on its own thread while {} other threads decode other histories, gave another transcript than alone at repetition {}", idx, if idx < 4 { "UMV picture, limited range, one of four size classes" } else { "two pictures at one quantizer" }, threads - 1, it),
+                    );
+                    return;
+                }
+            }
+            acc.count_n((threads * iterations) as u64, threads as u64);
+        }
+        acc.sample(|| json!({"threads": threads, "histories": hists.len(), "repetitions_per_thread_and_round": iterations, "rounds": rounds * 2}));
+    })
+}
+
 /// A source that hands out `first` bytes, then blocks inside `read` until released.
 struct Gate {
     data: Vec<u8>,
@@ -863,12 +952,13 @@ pub fn run(ctx: &Ctx) -> i32 {
         reports.push(cold_start_suite(ctx, &all, ctx.tier.pick(12usize, 60usize)));
         reports.push(heavy_use_suite(ctx, ctx.tier.pick(48_000usize, 200_000usize)));
         reports.push(blocked_source_suite());
+        reports.push(hammer_suite(ctx, ctx.tier.pick(400usize, 5000usize)));
     }
     finish(
         ctx,
         reports,
         Summary {
-            rule: "Groups of 2..4 histories from the C01 generator (valid, hostile and corrupted data; own readers, streams, clean-ups; all four option sets). The transcript of a history (per call: result and digest of get_last_picture()) must be identical when it is run (1) alone, (2) again in the same process after other work and through a source that delivers the same bytes in reads of 1..9 bytes, (3) with its calls interleaved with calls on the other instances in a tape-generated order on one thread, (4) for every fourth group, on 3 replicas x k real threads released together by a barrier, (5) in a second process (up to 400 groups per run are recomputed by a child process), (6) in fresh processes whose first work is to decode on up to 16 threads released together (31 histories using every quantizer in both modes, plus 40 generated groups): cold_start_on_many_threads; (7) fresh decoders behave as at process start after tens of thousands of decode attempts of 65535x1-class pictures on many threads: fresh_instance_after_heavy_use; (8) a decoder blocked inside its source's read() does not hold up another decoder on another thread: instance_with_a_waiting_source. Non-trivial = a history with >= 2 accepted and >= 1 rejected call; distinct by transcript digests.",
+            rule: "Groups of 2..4 histories from the C01 generator (valid, hostile and corrupted data; own readers, streams, clean-ups; all four option sets). The transcript of a history (per call: result and digest of get_last_picture()) must be identical when it is run (1) alone, (2) again in the same process after other work and through a source that delivers the same bytes in reads of 1..9 bytes, (3) with its calls interleaved with calls on the other instances in a tape-generated order on one thread, (4) for every fourth group, on 3 replicas x k real threads released together by a barrier, (5) in a second process (up to 400 groups per run are recomputed by a child process), (6) in fresh processes whose first work is to decode on up to 16 threads released together (31 histories using every quantizer in both modes, plus 40 generated groups): cold_start_on_many_threads; (7) fresh decoders behave as at process start after tens of thousands of decode attempts of 65535x1-class pictures on many threads: fresh_instance_after_heavy_use; (8) a decoder blocked inside its source's read() does not hold up another decoder on another thread: instance_with_a_waiting_source; (9) every thread decodes its own history over and over while the others decode theirs (every quantizer and mode; UMV pictures of all four size classes): different_streams_hammered_concurrently. Non-trivial = a history with >= 2 accepted and >= 1 rejected call; distinct by transcript digests.",
             assumptions: vec![
                 "the harness owns call-level interleaving; instruction-level interleaving inside a call is left to the OS scheduler (safe Rust rules out data races; the scan for unsafe / static mut / thread_local is reported under no_unsafe_no_static_mut)".into(),
             ],
@@ -891,6 +981,13 @@ pub fn replay(suite: &str, case: &Value) -> Option<Verdict> {
         "fresh_instance_after_heavy_use" => {
             let ctx = Ctx::new("C17", Tier::Quick, 1);
             Some(match heavy_use_suite(&ctx, case["heavy_use"].as_u64()? as usize).failure {
+                Some(f) => Verdict::fail(f.msg),
+                None => Verdict::pass(true, 0),
+            })
+        }
+        "different_streams_hammered_concurrently" => {
+            let ctx = Ctx::new("C17", Tier::Quick, 1);
+            Some(match hammer_suite(&ctx, case["hammer"].as_u64().unwrap_or(400) as usize * 5).failure {
                 Some(f) => Verdict::fail(f.msg),
                 None => Verdict::pass(true, 0),
             })
